@@ -1,5 +1,6 @@
 //! Independent reference model of ISO-BMFF (never calls into `mp4`).
 pub mod build;
+pub mod frag;
 pub mod kitchen;
 pub mod movie;
 pub mod parse;
